@@ -513,6 +513,21 @@ func c08Run(dir string, scenario string) c08Obs {
 			}
 		}
 		out = append(out, "team: "+sortedLines(tr))
+		// the change-log summary as `coca git -m` prints it: sections in any order, the same rows in each
+		var clog bytes.Buffer
+		gitapp.ShowChangeLogSummary(msgs, &clog)
+		var sections []string
+		for _, sec := range strings.Split(clog.String(), "=====================\n") {
+			if strings.TrimSpace(sec) == "" {
+				continue
+			}
+			ls := strings.Split(strings.TrimRight(sec, "\n"), "\n")
+			if len(ls) > 2 {
+				sort.Strings(ls[2:])
+			}
+			sections = append(sections, strings.Join(ls, " | "))
+		}
+		out = append(out, "changelog summary:\n"+sortedLines(sections))
 		ages := gitapp.CalculateCodeAge(msgs)
 		var ar []string
 		for i, a := range ages {
